@@ -8,6 +8,7 @@ vars == <<req, phase, execs, obj>>
 Values(k) ==
     CASE k = "facade_bs0" -> 0..8
       [] k \in {"opcode_ctor", "opcode_len"} -> 0..255
+      [] k = "opcode_reuse" -> 0..1023
       [] k = "prin_sa" -> 0..40 \cup {255, 256, 65536}
       [] k \in {"xcopy_cscd_key", "xcopy_seg_key"} -> {0, 1}
       [] k = "xcopy_cscd_type" -> \hD0..\hFF
